@@ -20,6 +20,8 @@ CACHE = os.path.join(VERIF, ".cache")
 EVIDENCE = os.path.join(VERIF, "evidence")
 REPLAYS = os.path.join(VERIF, "replays")
 FMODEL = os.path.join(LEAN, ".lake", "build", "bin", "fmodel")
+FPREDICT = os.path.join(LEAN, ".lake", "build", "bin", "fpredict")
+FMONITOR = os.path.join(LEAN, ".lake", "build", "bin", "fmonitor")
 HBIN = os.path.join(HARNESS, "bin", "harness")
 XBIN = os.path.join(EXTRACT, "bin", "extract")
 
@@ -102,7 +104,7 @@ def build_harness():
 def build_model():
     with Lock("build-lean"):
         t = time.time()
-        run(["lake", "build", "fmodel"], cwd=LEAN, timeout=3600)
+        run(["lake", "build", "fmodel", "fpredict", "fmonitor"], cwd=LEAN, timeout=3600)
         log("fmodel built in %.1fs" % (time.time() - t))
 
 
@@ -293,9 +295,10 @@ def correspondence(tier, seed, focus=None, histories=None, maxops=None):
             for w in range(plan["workers"]):
                 ops = os.path.join(d, "w%d.ops" % w)
                 obs = os.path.join(d, "w%d.obs" % w)
-                cmd = [HBIN, "gen", "-seed", str(seed * 1000 + w), "-histories", str(plan["histories"]),
+                cmd = [HBIN, "appgen" if focus == "app" else "gen", "-seed", str(seed * 1000 + w),
+                       "-histories", str(max(2, plan["histories"] // 2) if focus == "app" else plan["histories"]),
                        "-maxops", str(plan["maxops"]), "-ops", ops, "-obs", obs, "-profile", plan["profile"]]
-                if focus:
+                if focus and focus != "app":
                     cmd += ["-focus", focus]
                 procs.append((w, subprocess.Popen(cmd, cwd=HARNESS, env=GOENV, stdout=subprocess.PIPE,
                                                   stderr=subprocess.PIPE, text=True)))
@@ -317,6 +320,18 @@ def correspondence(tier, seed, focus=None, histories=None, maxops=None):
             for p, fin, fout in mprocs:
                 p.wait(timeout=3600)
                 fin.close(); fout.close()
+            # one-step predictions: the model started from the IMPLEMENTATION's previous state
+            pprocs = []
+            for w in range(plan["workers"]):
+                obs = os.path.join(d, "w%d.obs" % w)
+                if not os.path.exists(obs):
+                    continue
+                fin = open(obs)
+                fout = open(os.path.join(d, "w%d.pred" % w), "w")
+                pprocs.append((subprocess.Popen([FPREDICT], stdin=fin, stdout=fout), fin, fout))
+            for p, fin, fout in pprocs:
+                p.wait(timeout=3600)
+                fin.close(); fout.close()
             with open(done, "w") as f:
                 json.dump({"gen_s": t1 - t0, "model_s": time.time() - t1}, f)
             log("correspondence run %s: gen %.1fs, model %.1fs" % (key, t1 - t0, time.time() - t1))
@@ -333,7 +348,8 @@ def correspondence(tier, seed, focus=None, histories=None, maxops=None):
             pass
         err = open(os.path.join(d, "w%d.err" % w)).read()
         runs.append(dict(w=w, ops=ops, obs=os.path.join(d, "w%d.obs" % w),
-                         model=os.path.join(d, "w%d.model" % w), dist=dist, err=err))
+                         model=os.path.join(d, "w%d.model" % w), pred=os.path.join(d, "w%d.pred" % w),
+                         dist=dist, err=err))
     return runs, d
 
 
@@ -349,6 +365,9 @@ def run_ops(ops_lines, workdir, tag):
         subprocess.run([HBIN, "run", f], cwd=HARNESS, env=GOENV, stdout=fo, stderr=subprocess.DEVNULL, timeout=600)
     with open(f) as fi, open(mod, "w") as fo:
         subprocess.run([FMODEL], stdin=fi, stdout=fo, timeout=600)
+    pred = os.path.join(workdir, tag + ".pred")
+    with open(obs) as fi, open(pred, "w") as fo:
+        subprocess.run([FPREDICT], stdin=fi, stdout=fo, timeout=600)
     return parse_stream(obs), parse_stream(mod)
 
 
